@@ -21,6 +21,9 @@ def run(rep, F, ctx):
     M, ok_only = atomic.fail_atomic(rep, F, cg)
     errguard.err_guard(rep, F, cg, engine.load_table('err_guards.json'), lambda fn: 'memfs' in fn)
     errguard.read_only(rep, F, cg, M)
+    import siteguard as _sg
+    _t = engine.load_table('site_guards.json')
+    _sg.site_guard(rep, F, cg, _t, _t['_groups']['C01'])
     return engine.finish(
         rep, 'other', EXPLANATION,
         assumptions=['the excuse lines in tables/failatomic_excuses.json state true infeasibility arguments (most rely on the tree invariant of C03)',
